@@ -143,10 +143,18 @@ func schedArg(s []int) string {
 // pduVolume collects op lines and the implementation's canonical observations during a run.
 type pduVolume struct {
 	ops, obs, kernel []string // kernel[i]: a Gallina boolean that re-checks line i inside coqc ("" = none)
+	maxLen           int      // longest input recorded (0 = 6000): the extracted list code is quadratic in the frame size
+}
+
+func (v *pduVolume) tooLong(n int) bool {
+	if v.maxLen == 0 {
+		return n > 6000
+	}
+	return n > v.maxLen
 }
 
 func (v *pduVolume) readmany(data []byte, sched []int, obs []readObs) {
-	if len(data) > 6000 { // the extracted model recomputes list lengths per TLV: quadratic on 64 KiB frames
+	if v.tooLong(len(data)) {
 		return
 	}
 	v.ops = append(v.ops, fmt.Sprintf("readmany %s %s", hexOrDash(data), schedArg(sched)))
@@ -159,7 +167,7 @@ func (v *pduVolume) readmany(data []byte, sched []int, obs []readObs) {
 }
 
 func (v *pduVolume) readone(data []byte, sched []int, o readObs) {
-	if len(data) > 6000 { // the extracted model recomputes list lengths per TLV: quadratic on 64 KiB frames
+	if v.tooLong(len(data)) {
 		return
 	}
 	v.ops = append(v.ops, fmt.Sprintf("readone %s %s", hexOrDash(data), schedArg(sched)))
